@@ -55,9 +55,8 @@ func NewMessageBuffer(log logging.Logger, pending int, maxSize int, timeout time
 
 func (m *MessageBuffer) Close() error {
 	m.l.Lock()
-	defer m.l.Unlock()
-
 	if m.closed {
+		m.l.Unlock()
 		return ErrClosed
 	}
 
@@ -67,9 +66,13 @@ func (m *MessageBuffer) Close() error {
 	// to the connection before it is closed.
 	m.clearPending()
 
-	m.pendingTimer.Stop()
 	m.closed = true
 	close(m.Queue)
+	m.l.Unlock()
+
+	// Stop waits for the timer goroutine to exit, and the timer's handler takes
+	// [m.l]: it must be called without the lock held.
+	m.pendingTimer.Stop()
 	return nil
 }
 
